@@ -291,6 +291,18 @@ def _observed(files):
   return out
 
 
+def execute(ctx, histories):
+  """engine, judge, self-test"""
+  t0 = time.time()
+  todo = _arrange(histories, SHARDS[ctx.tier])
+  files = fnspec.run_cases(WORKER, todo, ctx.workdir, nshards=SHARDS[ctx.tier])
+  ctx.log("the real engine ran %d histories in %.1fs" % (len(histories), time.time() - t0))
+  viol, n, steps, wall = judge(files, ctx.workdir)
+  ctx.log("TLC judged %d histories / %d bundles in %.1fs" % (n, steps, wall))
+  _selftest(files, viol, ctx.workdir)
+  return files, viol, n, steps
+
+
 def run(ctx):
   inputs, model = enumerate_histories(ctx)
   by_len = {}
@@ -300,14 +312,8 @@ def run(ctx):
   n_cfg = len({json.dumps(h["cfg"], sort_keys=True) for h in inputs})
   ctx.log("TLC enumerated %d histories over %d configurations in %.1fs (%d distinct states): %s"
           % (len(inputs), n_cfg, model["wall"], model["distinct"], by_len))
-  extra = random_histories(ctx.seed, 2500 if ctx.quick else 40000, 24 if ctx.quick else 96)
-  t0 = time.time()
-  todo = _arrange(inputs + extra, SHARDS[ctx.tier])
-  files = fnspec.run_cases(WORKER, todo, ctx.workdir, nshards=SHARDS[ctx.tier])
-  ctx.log("the real engine ran %d histories in %.1fs" % (len(inputs) + len(extra), time.time() - t0))
-  viol, n, steps, wall = judge(files, ctx.workdir)
-  ctx.log("TLC judged %d histories / %d bundles in %.1fs" % (n, steps, wall))
-  _selftest(files, viol, ctx.workdir)
+  extra = random_histories(ctx.seed, 2000 if ctx.quick else 40000, 24 if ctx.quick else 96)
+  files, viol, n, steps = execute(ctx, inputs + extra)
   return {
     "states": model["distinct"] + steps, "transitions": model["generated"] + steps,
     "traces_validated_against_impl": n,
